@@ -8,11 +8,11 @@ namespace InToto
 record exists, is unaltered and was signed by the same key; the result then
 holds exactly the materials captured at start and the products present at stop,
 is signed by that key, and the preliminary record is gone. -/
-theorem C12_stop_spec (key : Str) (products : Dict Str RecVal) (d d' : WDir)
-    (h : recordStop key products d = .ok d') :
+theorem C12_stop_spec (key : Str) (products : Dict Str RecVal) (d d' : WDir) (given : LinkExtras)
+    (h : recordStop key products d given = .ok d') :
     ∃ p, d.prelim = .complete p ∧ p.signer = key ∧ p.intact = true ∧
       d'.prelim = .absent ∧
-      d'.final = .complete { materials := p.materials, products := products, signer := key } := by
+      d'.final = .complete (finalOf p products key given) := by
   unfold recordStop at h
   split at h
   · cases h
@@ -29,26 +29,26 @@ preliminary record, altered record, record signed by another key — the directo
 is exactly what it was: no final link is written. (The function returns no new
 directory at all; `C12_ops_refine` shows the operation sequence is only started
 on its success path.) -/
-theorem C12_stop_failure_cases (key : Str) (products : Dict Str RecVal) (d : WDir) :
-    (d.prelim = .absent → recordStop key products d = .error .os) ∧
-    (∀ p, d.prelim = .complete p → p.intact = false → recordStop key products d = .error .signature) ∧
-    (∀ p, d.prelim = .complete p → p.signer ≠ key → recordStop key products d = .error .signature) := by
+theorem C12_stop_failure_cases (key : Str) (products : Dict Str RecVal) (d : WDir) (given : LinkExtras) :
+    (d.prelim = .absent → recordStop key products d given = .error .os) ∧
+    (∀ p, d.prelim = .complete p → p.intact = false → recordStop key products d given = .error .signature) ∧
+    (∀ p, d.prelim = .complete p → p.signer ≠ key → recordStop key products d given = .error .signature) := by
   refine ⟨?_, ?_, ?_⟩
   · intro h; simp [recordStop, h]
   · intro p h hi; simp [recordStop, h, hi]
   · intro p h hs; simp [recordStop, h, hs]
 
 /-- The operation sequence, run to completion, is the pure function. -/
-theorem C12_ops_refine (key : Str) (products : Dict Str RecVal) (d d' : WDir) (n : Nat)
-    (h : recordStop key products d = .ok d') (p : Prelim) (hp : d.prelim = .complete p) :
-    crashAfter { materials := p.materials, products := products, signer := key } d n (stopOps n).length = d' := by
-  obtain ⟨p', hp', _, _, h1, h2⟩ := C12_stop_spec key products d d' h
+theorem C12_ops_refine (key : Str) (products : Dict Str RecVal) (d d' : WDir) (n : Nat) (given : LinkExtras)
+    (h : recordStop key products d given = .ok d') (p : Prelim) (hp : d.prelim = .complete p) :
+    crashAfter (finalOf p products key given) d n (stopOps n).length = d' := by
+  obtain ⟨p', hp', _, _, h1, h2⟩ := C12_stop_spec key products d d' given h
   rw [hp] at hp'
   cases hp'
   unfold crashAfter
   rw [List.take_length]
   have : ∀ (d0 : WDir) (m : Nat), (List.replicate m StopOp.readProduct).foldl
-      (applyStopOp { materials := p.materials, products := products, signer := key }) d0 = d0 := by
+      (applyStopOp (finalOf p products key given)) d0 = d0 := by
     intro d0 m
     induction m with
     | zero => rfl
@@ -57,6 +57,19 @@ theorem C12_ops_refine (key : Str) (products : Dict Str RecVal) (d d' : WDir) (n
   cases d'
   simp only at h1 h2
   simp [h1, h2]
+
+/-- **C12 (what the caller passes at stop is what the link records).** A given
+command / by-products / environment replaces the value carried over from start;
+what is not given is kept; materials stay those of the start, whatever is passed. -/
+theorem C12_stop_extras (p : Prelim) (products : Dict Str RecVal) (key : Str) (given : LinkExtras) :
+    (finalOf p products key given).materials = p.materials ∧
+    (given.command ≠ [] → (finalOf p products key given).extras.command = given.command) ∧
+    (given.command = [] → (finalOf p products key given).extras.command = p.extras.command) ∧
+    (∀ b, given.byproducts = some b → (finalOf p products key given).extras.byproducts = some b) ∧
+    (given.byproducts = none → (finalOf p products key given).extras.byproducts = p.extras.byproducts) ∧
+    (∀ e, given.environment = some e → (finalOf p products key given).extras.environment = some e) ∧
+    (given.environment = none → (finalOf p products key given).extras.environment = p.extras.environment) := by
+  refine ⟨rfl, ?_, ?_, ?_, ?_, ?_, ?_⟩ <;> intro h <;> simp_all [finalOf, LinkExtras.override]
 
 /-- At least one of the two records is whole. -/
 def Safe (p : Prelim) (link : FinalLink) (d : WDir) : Prop :=
@@ -119,15 +132,12 @@ theorem C12_crash_safe (p : Prelim) (link : FinalLink) (d : WDir) (hp : d.prelim
 /-- **C12 (retry).** From every crash state in which the preliminary record is
 still intact, running the stop phase again succeeds, with the same result as an
 uninterrupted run. -/
-theorem C12_retry (key : Str) (products : Dict Str RecVal) (p : Prelim) (d : WDir)
+theorem C12_retry (key : Str) (products : Dict Str RecVal) (p : Prelim) (d : WDir) (given : LinkExtras)
     (hp : d.prelim = .complete p) (hs : p.signer = key) (hi : p.intact = true) (n k : Nat)
     (hk : k < (stopOps n).length) :
-    recordStop key products
-        (crashAfter { materials := p.materials, products := products, signer := key } d n k) =
-      .ok { prelim := .absent,
-            final := .complete { materials := p.materials, products := products, signer := key } } := by
-  have hprelim := crash_before_end_keeps_prelim p
-    { materials := p.materials, products := products, signer := key } d hp n k hk
+    recordStop key products (crashAfter (finalOf p products key given) d n k) given =
+      .ok { prelim := .absent, final := .complete (finalOf p products key given) } := by
+  have hprelim := crash_before_end_keeps_prelim p (finalOf p products key given) d hp n k hk
   simp [recordStop, hprelim, hs, hi]
 
 /-- Distinct (step name, key id) pairs use distinct files: operations of
